@@ -89,6 +89,21 @@ func (t *translator) goType(e ast.Expr) ty {
 	return tUnknown
 }
 
+var leanKeywords = map[string]bool{"namespace": true, "end": true, "open": true, "from": true, "at": true, "do": true, "then": true,
+	"fun": true, "have": true, "show": true, "match": true, "with": true, "in": true, "section": true, "variable": true, "theorem": true,
+	"def": true, "instance": true, "structure": true, "class": true, "where": true, "deriving": true, "import": true, "universe": true,
+	"mutual": true, "private": true, "protected": true, "local": true, "prefix": true, "infix": true, "notation": true, "macro": true,
+	"syntax": true, "let": true, "if": true, "else": true, "by": true, "calc": true, "export": true, "abbrev": true, "axiom": true,
+	"example": true, "inductive": true, "set_option": true, "attribute": true, "to": false}
+
+// li renders a Go identifier as a Lean identifier (keywords get a trailing underscore).
+func li(name string) string {
+	if leanKeywords[name] {
+		return name + "_"
+	}
+	return name
+}
+
 func leanTy(t ty) string {
 	switch t {
 	case tInt32, tInt64, tUint64, tInt:
@@ -189,7 +204,7 @@ func (t *translator) expr(e ast.Expr) val {
 			return val{x.Name, tBool, true}
 		}
 		if ty, ok := t.env[x.Name]; ok {
-			return val{x.Name, ty, true}
+			return val{li(x.Name), ty, true}
 		}
 		if c, ok := t.consts[x.Name]; ok {
 			if strings.HasPrefix(c, "\"") {
@@ -209,7 +224,7 @@ func (t *translator) expr(e ast.Expr) val {
 				if fld == "namespace" {
 					fld = "ns"
 				}
-				return val{"(" + id.Name + "." + fld + ")", tString, true}
+				return val{"(" + li(id.Name) + "." + fld + ")", tString, true}
 			}
 		}
 		if c, ok := t.consts[name]; ok {
@@ -465,9 +480,9 @@ func (t *translator) stmts(list []ast.Stmt, k string, ind string) string {
 		v := t.expr(s.Rhs[0])
 		t.env[name] = v.t
 		if v.pure {
-			return "(let " + name + " : " + leanTy(v.t) + " := " + v.s + ";\n" + ind + rest() + ")"
+			return "(let " + li(name) + " : " + leanTy(v.t) + " := " + v.s + ";\n" + ind + rest() + ")"
 		}
-		return "((" + v.s + ").bind fun " + name + " =>\n" + ind + rest() + ")"
+		return "((" + v.s + ").bind fun " + li(name) + " =>\n" + ind + rest() + ")"
 	case *ast.DeclStmt:
 		// `var v To` in narrow.go: ignored (only used by the type switch)
 		return rest()
@@ -579,7 +594,7 @@ func (t *translator) fn(fd *ast.FuncDecl, leanName string, extraParams string, r
 		}
 		for _, n := range names {
 			t.env[n.Name] = gt
-			params += " (" + n.Name + " : " + leanTy(gt) + ")"
+			params += " (" + li(n.Name) + " : " + leanTy(gt) + ")"
 		}
 	}
 	if fd.Recv != nil {
